@@ -12,7 +12,7 @@ import Dawn.Model.Mvs
       → one answer per op, separated by `;`
         bl            ok:path#version,…            (sorted by path, without the root entry)
         tidy, upall   ok:name=path#version,…       (sorted by name)
-        get           ok:<requirements>|<add/same/up/down>|<resolved path#version>|<landed 0/1/e>
+        get           ok:<requirements>|<add/same/up/down>|<resolved path#version>|<landed 0/1/e>|<query resolves to the same version against the new build list 0/1/e>
         errors        err:buildlist | err:other | panic | hang
     sv  <hex>          → `ok <canonical> <major> <major.minor> [<prerelease>]` | `invalid`
     cmp <hex> <hex>    → `<semver.Compare> <cmpVersion>` as -1/0/1
@@ -93,7 +93,12 @@ def observeGet (e : Env) (c c' : Config) (q : String) : String :=
       let landed := match BuildList fuel e c' with
         | .error _ => "e"
         | .ok bl' => if (bl'.find? (·.path = v.path)).map (·.ver) = some v.ver then "1" else "0"
-      branch ++ "|" ++ showMod v ++ "|" ++ landed
+      let stable := match BuildList fuel e c' with
+        | .error _ => "e"
+        | .ok bl' => match resolveVersionQuery e bl' (parseVersionQuery q) with
+          | .error _ => "e"
+          | .ok v' => if v' = v then "1" else "0"
+      branch ++ "|" ++ showMod v ++ "|" ++ landed ++ "|" ++ stable
 
 def runOps (e : Env) : Config → List String → List String
   | _, [] => []
